@@ -324,14 +324,15 @@ pub struct CleanTrace {
     pub boot_of: Vec<(u8, u32)>,
     pub boots: Vec<(u8, u32, u64, u64)>, // ecu, boot, expected start, expected end
 }
+/// one boot of an ECU: boot time S, transport delay D (the same for all messages of the boot), timestamps in stream order
+pub struct Boot {
+    pub s: u64,
+    pub delay: u64,
+    pub ts: Vec<u64>, // us, multiples of 100
+}
 pub fn gen_clean(rng: &mut Rng) -> CleanTrace {
     let necu = rng.range(1, 4) as usize;
     // per ECU the list of boots; each boot: start S, delay D, timestamps
-    struct Boot {
-        s: u64,
-        delay: u64,
-        ts: Vec<u64>, // us, multiples of 100
-    }
     let mut per_ecu: Vec<Vec<Boot>> = vec![];
     for _ in 0..necu {
         let nb = rng.range(1, 5);
@@ -387,7 +388,12 @@ pub fn gen_clean(rng: &mut Rng) -> CleanTrace {
         }
         per_ecu.push(boots);
     }
-    // interleave ECUs arbitrarily, but per ECU boots in sequence, inside a boot in the list order
+    interleave_boots(rng, per_ecu)
+}
+/// interleave ECUs arbitrarily, but per ECU boots in sequence, inside a boot in the list order; the ground truth
+/// (boot of every message, expected start and end of every boot) comes from the boots, not from the detector's arithmetic
+pub fn interleave_boots(rng: &mut Rng, per_ecu: Vec<Vec<Boot>>) -> CleanTrace {
+    let necu = per_ecu.len();
     let mut cursors: Vec<(usize, usize)> = vec![(0, 0); necu];
     let mut msgs = vec![];
     let mut boot_of = vec![];
@@ -419,6 +425,251 @@ pub fn gen_clean(rng: &mut Rng) -> CleanTrace {
         }
     }
     CleanTrace { msgs, boot_of, boots }
+}
+
+// ------------------------------------------------------------------ boundaries of the time domain, order inside a boot
+/// constants the code compares times and timestamps with (us): off-time of the property (1 ms), once-per-second check,
+/// slightly-overlapping window (2 s / 10 s), resume detection (10 s / 30 s), buffering delay (60 s)
+pub const CODE_CONSTS: [u64; 7] = [1_000, 1_000_000, 2_000_000, 10_000_000, 30_000_000, 60_000_000, 70_000_000];
+pub const MAX_TS_US: u64 = u32::MAX as u64 * 100;
+
+/// a value just below / at / just above one of the constants
+fn near_const(rng: &mut Rng, tick_aligned: bool) -> u64 {
+    let c = *rng.pick(&CODE_CONSTS[..]);
+    if tick_aligned {
+        let k = rng.below(3) * 100;
+        if rng.chance(1, 2) { c.saturating_sub(k) / 100 * 100 } else { c + k }
+    } else {
+        let d = *rng.pick(&[0u64, 1, 2, 99, 100, 101, 999][..]);
+        if rng.chance(1, 2) { c.saturating_sub(d) } else { c + d }
+    }
+}
+/// boot time + transport delay of an ECU's first boot (absolute, us): 0, a few us, one tick, around the constants, ordinary, huge
+pub fn gen_base(rng: &mut Rng, small_only: bool) -> u64 {
+    match rng.below(if small_only { 8 } else { 11 }) {
+        0..=2 => 0,
+        3 => 1 + rng.below(100),
+        4 => *rng.pick(&[1u64, 50, 99, 100, 101, 199, 200, 900, 999, 1_000, 1_001][..]),
+        5 | 6 => near_const(rng, false),
+        7 => rng.below(120_000_000),
+        8 => RHO + rng.below(5_000_000),
+        9 => MAX_TS_US - 200 + rng.below(400), // around the largest representable timestamp
+        _ => *rng.pick(&[1u64 << 40, 1u64 << 52, 1u64 << 62, (1u64 << 62) + (1u64 << 61)][..]) + rng.below(1_000),
+    }
+}
+/// the timestamps of one boot (us, multiples of 100) in stream order.  `role`: which message comes first.
+fn gen_boot_ts(rng: &mut Rng, allow_big: bool) -> (Vec<u64>, &'static str) {
+    let nmsg = match rng.below(5) {
+        0 | 1 => 1,
+        2 => 2,
+        _ => rng.range(3, 6),
+    };
+    let scale = rng.below(if allow_big { 6 } else { 5 });
+    let mut ts: Vec<u64> = vec![];
+    for k in 0..nmsg {
+        let v = match scale {
+            0 => rng.below(4) * 100,                                  // 0 .. 3 ticks
+            1 => rng.below(3_000_000) / 100 * 100,
+            2 => near_const(rng, true),
+            3 => k * (rng.range(5_000_000, 30_000_000) / 100 * 100) + rng.below(3) * 100, // long boot: confirmed mid-stream
+            4 => match rng.below(4) { 0 => 0, 1 => 100, 2 => near_const(rng, true), _ => rng.below(200_000_000) / 100 * 100 },
+            _ => MAX_TS_US - rng.below(3) * 100 - if k > 0 { rng.below(100_000_000) / 100 * 100 } else { 0 },
+        };
+        ts.push(v.min(MAX_TS_US));
+    }
+    if rng.chance(1, 4) {
+        ts[0] = 0; // some message of the boot has timestamp 0
+    }
+    ts.sort();
+    let role = match rng.below(6) {
+        0 => "ascending",
+        1 => { ts.reverse(); "descending" }
+        2 => { let l = ts.len() - 1; ts.swap(0, l); shuffle_from(rng, &mut ts, 1); "largest_first" }
+        3 => { shuffle_from(rng, &mut ts, 1); "smallest_first" }
+        4 => { let m = ts.len() / 2; ts.swap(0, m); shuffle_from(rng, &mut ts, 1); "middle_first" }
+        _ => { shuffle_from(rng, &mut ts, 0); "shuffled" }
+    };
+    (ts, role)
+}
+fn shuffle_from(rng: &mut Rng, v: &mut [u64], from: usize) {
+    for i in ((from + 1)..v.len()).rev() {
+        let j = from + rng.below((i - from) as u64 + 1) as usize;
+        v.swap(i, j);
+    }
+}
+/// clean traces at the boundaries of the time domain: boot time + delay of the first boot of an ECU in
+/// {0, 1..100 us, one tick, around the constants of the code, ordinary, huge}, so that reception time == timestamp
+/// (or one tick / a few us above it) occurs; timestamps 0, one tick, around the constants, up to the largest
+/// representable one; boots of one message; the first message of a boot carrying the largest / smallest / a middle
+/// timestamp; off-times of exactly 1 ms, around the constants, long; 1-3 ECUs, 1-4 boots each.
+pub fn gen_clean_boundary(rng: &mut Rng, small_only: bool) -> CleanTrace {
+    let necu = rng.range(1, 3) as usize;
+    let mut per_ecu: Vec<Vec<Boot>> = vec![];
+    for _ in 0..necu {
+        let nb = rng.range(1, 4);
+        let mut boots = vec![];
+        let mut base = gen_base(rng, small_only);
+        for _ in 0..nb {
+            let (ts, _role) = gen_boot_ts(rng, !small_only);
+            let maxts = *ts.iter().max().unwrap();
+            let delay = match rng.below(3) {
+                0 => 0,
+                1 => base,
+                _ => rng.below(base + 1),
+            };
+            boots.push(Boot { s: base - delay, delay, ts });
+            let off = match rng.below(6) {
+                0 => 1_000,
+                1 => *rng.pick(&[1_001u64, 1_099, 1_100, 2_000][..]),
+                2 => near_const(rng, false).max(1_000),
+                3 => rng.range(61_000_000, 130_000_000),
+                _ => rng.range(1_000, 30_000_000),
+            };
+            base = base + maxts + off;
+        }
+        per_ecu.push(boots);
+    }
+    interleave_boots(rng, per_ecu)
+}
+
+/// a boundary clean trace (small absolute times) with a few messages perturbed: timestamp one tick or more above the
+/// reception time, within the tick at / below it, missing, a control request, or a reception time shifted by 1 us.
+/// Mostly no longer clean (then only the correspondence looks at it); `derive_clean` decides.
+pub fn gen_near_clean(rng: &mut Rng) -> Vec<MSpec> {
+    let mut msgs = gen_clean_boundary(rng, true).msgs;
+    let n = msgs.len();
+    for _ in 0..rng.range(1, 3) {
+        let m = &mut msgs[rng.below(n as u64) as usize];
+        let at = m.rt / 100;
+        let fits = at + 1_000 <= u32::MAX as u64;
+        match rng.below(8) {
+            0 if fits => m.ts_dms = at as u32 + 1,
+            1 if fits => m.ts_dms = (at + rng.below(1_000)) as u32,
+            2 if fits => m.ts_dms = at as u32,
+            3 if fits => m.ts_dms = (at as u32).saturating_sub(1),
+            4 => m.has_ts = false,
+            5 => m.kind = 1,
+            6 => m.rt += 1,
+            _ => m.rt = m.rt.saturating_sub(1),
+        }
+    }
+    msgs
+}
+
+/// general traces at small absolute times (reception times from 0 on): the saturating subtractions of the code are
+/// reached, timestamps at / one tick above / below the reception time occur for first and later messages of an ECU
+pub fn gen_small_time(rng: &mut Rng, max_len: u64) -> Vec<MSpec> {
+    let necu = rng.range(1, 3) as usize;
+    let n = rng.range(1, max_len);
+    let mut now = *rng.pick(&[0u64, 0, 100, 1_000, 999_900, 1_000_000, 5_000_000, 59_999_900, 60_000_000][..]) + if rng.chance(1, 3) { rng.below(100) } else { 0 };
+    let mut boot: Vec<u64> = (0..necu).map(|_| if rng.chance(1, 2) { 0 } else { rng.below(now + 1) }).collect();
+    let mut out = vec![];
+    for _ in 0..n {
+        let e = rng.below(necu as u64) as usize;
+        now += match rng.below(10) {
+            0 => 0,
+            1 => 100,
+            2 => rng.range(9_000_000, 12_000_000),
+            3 => rng.range(55_000_000, 70_000_000),
+            4 => 1_000_000 + rng.below(200),
+            _ => rng.below(900_000),
+        };
+        let rt = if rng.chance(1, 12) { now.saturating_sub(rng.below(3_000_000)) } else { now };
+        if rng.chance(1, 10) {
+            boot[e] = rt.saturating_sub(rng.below(300_000)); // reboot
+        }
+        let delay = if rng.chance(1, 6) { rng.below(5_000_000) } else { rng.below(200_000) };
+        let mut ts_dms = (rt.saturating_sub(delay).saturating_sub(boot[e]) / 100).min(u32::MAX as u64) as u32;
+        let mut has_ts = true;
+        let mut kind = 0u8;
+        let at = (rt / 100).min(u32::MAX as u64 - 1_000) as u32;
+        match rng.below(30) {
+            0..=3 => ts_dms = at,
+            4 | 5 => ts_dms = at + 1,
+            6 => ts_dms = at + rng.below(1_000) as u32,
+            7 | 8 => ts_dms = 0,
+            9 => { has_ts = false; ts_dms = 0 }
+            10 => kind = 1,
+            11 => kind = 2,
+            _ => {}
+        }
+        out.push(MSpec { ecu: e as u8 + 1, rt, ts_dms, has_ts, kind });
+    }
+    out
+}
+
+/// Is the trace a clean trace in the sense of C08 (the hypothesis `CleanStream` of the theorem, evaluated on the input)?
+/// Every message has a timestamp <= its reception time and is no control request; compared with every earlier message y of
+/// its ECU it has the same boot value (reception time - timestamp = boot time + delay) or a boot value at least 1 ms after
+/// y was generated.  Returns the ground truth derived from the INPUT alone: boots numbered per ECU in order of appearance,
+/// expected start = the boot value, expected end = boot value + largest timestamp of the boot.
+pub fn derive_clean(msgs: &[MSpec]) -> Option<CleanTrace> {
+    let mut per_ecu: std::collections::BTreeMap<u8, Vec<(u64, u64)>> = Default::default(); // ecu -> [(boot value, max ts)]
+    let mut boot_of = vec![];
+    for m in msgs {
+        let ts = m.ts_dms as u64 * 100;
+        if !m.has_ts || m.kind == 1 || ts > m.rt {
+            return None;
+        }
+        let b = m.rt - ts;
+        let boots = per_ecu.entry(m.ecu).or_default();
+        for (b2, maxts2) in boots.iter() {
+            if *b2 != b && b2.checked_add(*maxts2)?.checked_add(1_000)? > b {
+                return None;
+            }
+        }
+        let k = match boots.iter().position(|x| x.0 == b) {
+            Some(k) => {
+                boots[k].1 = boots[k].1.max(ts);
+                k
+            }
+            None => {
+                boots.push((b, ts));
+                boots.len() - 1
+            }
+        };
+        boot_of.push((m.ecu, k as u32));
+    }
+    let mut boots = vec![];
+    for (e, bs) in per_ecu.iter() {
+        for (k, (b, maxts)) in bs.iter().enumerate() {
+            boots.push((*e, k as u32, *b, b.checked_add(*maxts)?));
+        }
+    }
+    Some(CleanTrace { msgs: msgs.to_vec(), boot_of, boots })
+}
+
+/// distribution tags of a clean trace (what the C08 clauses are evaluated on)
+pub fn clean_tags(t: &CleanTrace) -> Vec<String> {
+    let mut tags: Vec<String> = vec![];
+    let mut add = |s: &str| if !tags.iter().any(|x| x == s) { tags.push(s.to_string()) };
+    for (e, b, start, _end) in t.boots.iter() {
+        let idx: Vec<usize> = (0..t.msgs.len()).filter(|i| t.boot_of[*i] == (*e, *b)).collect();
+        let ts: Vec<u32> = idx.iter().map(|i| t.msgs[*i].ts_dms).collect();
+        let maxts = *ts.iter().max().unwrap();
+        let mints = *ts.iter().min().unwrap();
+        let z = if *start == 0 { "base0" } else if *start < 100 { "base<1tick" } else if *start == 100 { "base1tick" } else if *start < 1_000_000 { "base<1s" }
+                else if *start < 120_000_000 { "base<120s" } else if *start < (1u64 << 40) { "base_ordinary" } else { "base_huge" };
+        add(z);
+        if ts.len() == 1 {
+            add("boot_1msg");
+            if *start == 0 && maxts > 0 { add("base0_boot_1msg_ts>0") }
+        } else if ts[0] == maxts && maxts > mints {
+            add("boot_largest_ts_first");
+            if *start == 0 { add("base0_largest_ts_first") }
+            if ts.iter().filter(|x| **x == maxts).count() == 1 { add("boot_unique_largest_ts_first") }
+        } else if ts[0] == mints && maxts > mints {
+            add("boot_smallest_ts_first");
+        } else if maxts > mints {
+            add("boot_middle_ts_first");
+        }
+        if ts[0] > 0 { add("boot_first_ts>0") } else { add("boot_first_ts0") }
+        if *b > 0 { add("later_boot") }
+        if maxts as u64 * 100 >= MAX_TS_US - 1_000 { add("ts_near_u32max") }
+    }
+    if t.msgs.iter().any(|m| m.ts_dms > 0 && m.ts_dms as u64 * 100 == m.rt) { add("ts_eq_rt") }
+    if t.msgs.iter().any(|m| m.ts_dms as u64 * 100 + 100 == m.rt) { add("ts_1tick_below_rt") }
+    tags
 }
 
 // ------------------------------------------------------------------ oracles
@@ -675,6 +926,21 @@ pub fn lc_main(prop: &str) {
     let other_thread = prop == "C06";
     let record_s = |sink: &mut Sink, scheme: Scheme, pre: Vec<MSpec>, msgs: Vec<MSpec>, clean: Option<&CleanTrace>| {
         let r = run_detector_s(&pre, &msgs, other_thread, scheme);
+        // C08: whatever family a trace comes from (replays included), when it satisfies the clean-trace hypothesis the clauses
+        // are evaluated on it, with the ground truth derived from the input; generated clean traces bring their own
+        // ground truth (and the two must agree)
+        let derived = if prop == "C08" && pre.is_empty() { derive_clean(&msgs) } else { None };
+        if let (Some(t), true) = (clean, prop == "C08") {
+            let d = derived.as_ref().expect("generated clean trace is not clean for the classifier");
+            let mut a = t.boots.clone();
+            a.sort();
+            assert_eq!(a, d.boots, "ground truth of the generator and of the classifier differ");
+        }
+        let by_classifier = clean.is_none() && derived.is_some();
+        let clean = match clean {
+            Some(t) => Some(t),
+            None => derived.as_ref(),
+        };
         let verdict = match prop {
             "C05" => oracle_c05(&msgs, &r),
             "C06" => oracle_c06(&msgs, &r),
@@ -685,8 +951,14 @@ pub fn lc_main(prop: &str) {
             },
         };
         let (mut tags, nontrivial) = lc_tags(&pre, &msgs, &r);
-        if clean.is_some() {
+        if let Some(t) = clean {
             tags.push("clean_trace".into());
+            if by_classifier {
+                tags.push("clean_by_classifier".into());
+            }
+            if prop == "C08" {
+                tags.extend(clean_tags(t));
+            }
         }
         if scheme != (0, 1) {
             tags.push("index_scheme".into());
@@ -732,6 +1004,23 @@ pub fn lc_main(prop: &str) {
         }
         record_s(&mut sink, (base, stride), vec![], msgs, None);
     }
+    // boundaries of the time domain: an ECU whose boot time + delay is exactly 0 / one tick / 1 us (reception time ==
+    // timestamp), boots of one message, first message of the boot carrying the largest timestamp, first and later boots
+    {
+        let c = |ecu: u8, base: u64, ts_us: u64| MSpec { ecu, rt: base + ts_us, ts_dms: (ts_us / 100) as u32, has_ts: true, kind: 0 };
+        for base in [0u64, 1, 100] {
+            let traces: Vec<Vec<MSpec>> = vec![
+                vec![c(1, base, 2_000_000)],
+                vec![c(1, base, 5_000_000), c(1, base, 3_000_000)],
+                vec![c(1, base, 0), c(1, base, 700), c(1, base, 300)],
+                vec![c(1, base, 4_000_000), c(2, base, 100), c(1, base + 4_001_000, 9_000_000), c(2, base + 1_100, 0), c(1, base + 4_001_000, 1_000_000)],
+            ];
+            for msgs in traces {
+                let t = derive_clean(&msgs).expect("corpus trace is clean");
+                record_s(&mut sink, (0, 1), vec![], msgs, Some(&t));
+            }
+        }
+    }
     if prop == "C07" {
         // listing on arbitrary tables (resume chains whose start estimates cross, ties, origins missing from the table)
         record_table(&mut sink, vec![TRow { id: 1, ecu: 1, start: 900, resume: None }, TRow { id: 2, ecu: 1, start: 890, resume: Some((1, 900)) }, TRow { id: 3, ecu: 1, start: 895, resume: Some((2, 890)) }]);
@@ -765,6 +1054,30 @@ pub fn lc_main(prop: &str) {
             let msgs = gen_general(&mut rng, max_len);
             record(&mut sink, pre, msgs, None);
         }
+    }
+    // boundaries of the time domain and order inside a boot (own random streams: the cases above stay what they were)
+    let (nb, nn, ns) = match (prop == "C08", a.tier.as_str()) {
+        (true, "quick") => (240, 60, 60),
+        (false, "quick") => (60, 30, 40),
+        (true, "search") => (900, 200, 200),
+        (false, "search") => (200, 100, 100),
+        (true, _) => (9000, 2000, 2000),
+        (false, _) => (2000, 1000, 1000),
+    };
+    let (nb, nn, ns) = match a.count { Some(c) => (c / 2, c / 8, c / 8), None => (nb, nn, ns) };
+    let mut brng = Rng::new(a.seed ^ 0xb0a7_0000);
+    for k in 0..nb {
+        let t = gen_clean_boundary(&mut brng, k % 3 != 0);
+        record(&mut sink, vec![], t.msgs.clone(), Some(&t));
+    }
+    for _ in 0..nn {
+        let msgs = gen_near_clean(&mut brng);
+        record(&mut sink, vec![], msgs, None);
+    }
+    for _ in 0..ns {
+        let max_len = match brng.below(6) { 0 => 40, 1 | 2 => 20, _ => 8 };
+        let msgs = gen_small_time(&mut brng, max_len);
+        record(&mut sink, vec![], msgs, None);
     }
     sink.finish();
 }
